@@ -86,6 +86,13 @@ CHECKS = {
             'ref': 'DESIGN.md 2/C16', 'note': NOTE + ' All variables are finite selectors: the verdict is exhaustive within the bound; '
                     'the solver contributes path coverage, not arithmetic.',
             'technique': SYM + ' (selector-driven exhaustive histories) against a reference tree model'},
+    'C17': {'text': 'For 12/36 property declarations (signature x access x emit mode, same name on a second inherited interface) '
+                    'every history of 2/3 steps over 16 step kinds (local assignment, remote Get/Set/GetAll with right and wrong '
+                    'names, values from boundary pools) is explored and compared with a reference store through the real message '
+                    'constructor, parser and handler, including PropertiesChanged emission.',
+            'ref': 'DESIGN.md 2/C17', 'note': NOTE + ' All variables are finite selectors: exhaustive within the bound; the solver '
+                    'contributes path coverage, not arithmetic.',
+            'technique': SYM + ' (selector-driven exhaustive histories) against a reference property store'},
 }
 _TODO = 'check not built yet in this revision (planned, see DESIGN.md section 2)'
 NOT_APPLICABLE = {('C%02d' % i): _TODO for i in range(1, 21)}
